@@ -2,6 +2,7 @@ package main
 
 import (
 	"context"
+	"crypto/tls"
 	"errors"
 	"fmt"
 	"io"
@@ -32,6 +33,7 @@ type slistener struct {
 	once     sync.Once
 	asked    int
 	conns    []*sconn
+	hconns   []*hconn
 	askedAll chan struct{}
 	onceAll  sync.Once
 }
@@ -55,6 +57,14 @@ func (l *slistener) Accept() (net.Conn, error) {
 		l.conns = append(l.conns, c)
 		l.mu.Unlock()
 		return c, nil
+	case "tlshang":
+		// an implicit-TLS connection whose peer never starts the handshake: it ends only when somebody closes it
+		h := &hconn{ch: make(chan struct{})}
+		l.mu.Lock()
+		l.hconns = append(l.hconns, h)
+		l.mu.Unlock()
+		scfg, _ := tlsConfigs()
+		return tls.Server(h, scfg), nil
 	case "temp":
 		return nil, tempErr{}
 	case "perm":
@@ -62,6 +72,38 @@ func (l *slistener) Accept() (net.Conn, error) {
 	}
 	return nil, errPerm
 }
+
+// hconn: a connection on which nothing ever arrives
+type hconn struct {
+	mu     sync.Mutex
+	ch     chan struct{}
+	closed bool
+}
+
+func (h *hconn) Read(b []byte) (int, error) { <-h.ch; return 0, net.ErrClosed }
+func (h *hconn) Write(b []byte) (int, error) {
+	h.mu.Lock()
+	defer h.mu.Unlock()
+	if h.closed {
+		return 0, net.ErrClosed
+	}
+	return len(b), nil
+}
+func (h *hconn) Close() error {
+	h.mu.Lock()
+	defer h.mu.Unlock()
+	if !h.closed {
+		h.closed = true
+		close(h.ch)
+	}
+	return nil
+}
+func (h *hconn) LocalAddr() net.Addr                { return addr{} }
+func (h *hconn) RemoteAddr() net.Addr               { return addr{} }
+func (h *hconn) SetDeadline(t time.Time) error      { return nil }
+func (h *hconn) SetReadDeadline(t time.Time) error  { return nil }
+func (h *hconn) SetWriteDeadline(t time.Time) error { return nil }
+
 func (l *slistener) Close() error   { l.once.Do(func() { close(l.closed) }); return nil }
 func (l *slistener) Addr() net.Addr { return addr{} }
 
@@ -151,8 +193,16 @@ func probeAccept(f []string) string {
 		left = 0
 	}
 	l.mu.Lock()
-	acc := len(l.conns)
+	acc := len(l.conns) + len(l.hconns)
 	open := 0
+	for _, h := range l.hconns {
+		h.mu.Lock()
+		if !h.closed {
+			open++
+		}
+		h.mu.Unlock()
+		h.Close() // do not leave the goroutine behind for the next case
+	}
 	for _, c := range l.conns {
 		c.mu.Lock()
 		if !c.closed {
